@@ -12,6 +12,12 @@ Translator plugin for C09 (redirections): constants of /repo that the Redir mode
     * the `dup` arguments `perform` uses for the saved copy (yash-semantics/src/redir.rs) and the access/flags
       `open_normal` passes to `open_file` per operator.
 
+    * (extension round) the access/flags of the two `open` calls of `open_file_noclobber` and the errno on which
+      the second is tried; the access mode `open_normal` hands to `copy_fd` for `<&` / `>&`; the operators
+      `open_normal` rejects as unsupported; the access/flags of the `.` built-in's `open`
+      (yash-builtin/src/source/semantics.rs); the built-in types of `exec`, `:`, `.`, `command`
+      (yash-builtin/src/lib.rs).
+
 Keyed on item names; fails loudly on anything it cannot classify.
 """
 import ast
@@ -249,6 +255,155 @@ def move_fd_internal_facts(x, ev, src):
     return thr, move_min, move_cloexec, closes_on_failure
 
 
+
+# ------------------------------------------------------------------------------------------------
+# extension round: open_file_noclobber, copy_fd access, unsupported operators, `.`, built-in types
+
+
+ACCESS = {"ReadOnly": ".ro", "WriteOnly": ".wo", "ReadWrite": ".rw"}
+
+
+def classify_access(x, text, where):
+    m = re.search(r"\bOfdAccess::(\w+)", text)
+    if not m or m.group(1) not in ACCESS:
+        x.fail(f"{where}: cannot classify the access mode `{text.strip()}`")
+    return ACCESS[m.group(1)]
+
+
+def classify_open_flags(x, text, table, where, depth=0):
+    """(create, trunc, append, excl, cloexec) of a flags expression; follows consts of the file"""
+    t = text.strip()
+    if depth > 4:
+        x.fail(f"{where}: flags expression nests too deeply: {text}")
+    m = re.fullmatch(r"(?:[A-Za-z_][A-Za-z_0-9]*::)*([A-Z_][A-Z_0-9]*)", t)
+    if m and m.group(1) in table:
+        return classify_open_flags(x, table[m.group(1)], table, where, depth + 1)
+    inner = t
+    m = re.fullmatch(r"enum_set!\s*\((.*)\)", t, re.S)
+    if m:
+        inner = m.group(1)
+    inner = re.sub(r"\.\s*into\s*\(\s*\)", "", inner).strip()
+    if re.fullmatch(r"(?:EnumSet::)?(?:empty|new)\s*\(\s*\)|EnumSet::EMPTY|Default::default\s*\(\s*\)", inner):
+        return (False, False, False, False, False)
+    names = [n.strip() for n in inner.split("|")]
+    known = {"Create": 0, "Truncate": 1, "Append": 2, "Exclusive": 3, "CloseOnExec": 4}
+    out = [False] * 5
+    for n in names:
+        m = re.fullmatch(r"(?:OpenFlag::)?(\w+)", n)
+        if not m or m.group(1) not in known:
+            x.fail(f"{where}: cannot classify the open flags `{text.strip()}` (unknown part `{n}`)")
+        out[known[m.group(1)]] = True
+    return tuple(out)
+
+
+def open_calls(x, body, where):
+    """[(access text, flags text)] of every `.open(path, access, flags, mode)` in `body`, in order"""
+    calls = []
+    for m in re.finditer(r"\.\s*open\s*\(", body):
+        args, _ = call_args(body, m.end() - 1)
+        if args is None or len(args) != 4:
+            x.fail(f"{where}: cannot read the arguments of `.open(…)` (expected (path, access, flags, mode))")
+        calls.append((args[1], args[2]))
+    return calls
+
+
+def noclobber_facts(x, redir, fns):
+    if "open_file_noclobber" not in fns:
+        x.fail("anchor not found: fn open_file_noclobber in yash-semantics/src/redir.rs")
+    body = fns["open_file_noclobber"][1]
+    table = consts(redir)
+    calls = open_calls(x, body, "open_file_noclobber")
+    if len(calls) != 2:
+        x.fail(f"open_file_noclobber: expected exactly two `.open(…)` calls (exclusive create, then plain), found {len(calls)}")
+    out = []
+    for acc, fl in calls:
+        a = classify_access(x, acc, "open_file_noclobber")
+        c, t, ap, e, ce = classify_open_flags(x, fl, table, "open_file_noclobber")
+        if ce:
+            x.fail("open_file_noclobber: a redirection target opened with CloseOnExec")
+        out.append((a, c, t, ap, e))
+    # the errno of the first open on which the second is tried: the one arm `Err(Errno::X) => ()`
+    first_end = body.find(".open", body.find(".open") + 1)
+    m = re.findall(r"Err\s*\(\s*Errno::(\w+)\s*\)\s*=>\s*(?:\(\s*\)|\{\s*\})", body[:first_end])
+    if len(m) != 1:
+        x.fail("open_file_noclobber: cannot find the single errno of the first open that leads to the second open")
+    # is the plainly opened file refused when it is regular?
+    if not re.search(r"is_regular_file\s*\(\s*\)", body):
+        x.fail("open_file_noclobber: no `is_regular_file()` test on the plainly opened descriptor")
+    return out[0], out[1], m[0]
+
+
+def open_normal_other_arms(x, on):
+    def copy_arm(name):
+        m = re.search(name + r"\s*=>\s*\{?\s*copy_fd\(\s*env,\s*operand,\s*(OfdAccess::\w+)", on, re.S)
+        if not m:
+            x.fail(f"anchor not found: arm `{name} => copy_fd(env, operand, OfdAccess::…)` in fn open_normal")
+        return classify_access(x, m.group(1), f"open_normal arm {name}")
+    unsupported = sorted(set(re.findall(r"\b(\w+)\s*=>\s*Err\s*\(\s*Error\s*\{\s*cause:\s*ErrorCause::Unsupported\w+", on)))
+    # every arm of the match must be one this translator has classified
+    heads = set()
+    for m in re.finditer(r"(?m)^\s*((?:\w+\s*\|\s*)*\w+)(?:\s+if\b[^=]*)?\s*=>", on):
+        for n in m.group(1).split("|"):
+            heads.add(n.strip())
+    known = {"FileIn", "FileOut", "FileClobber", "FileAppend", "FileInOut", "FdIn", "FdOut"} | set(unsupported)
+    extra = sorted(h for h in heads if h not in known and h[:1].isupper() and h not in ("Err", "Ok", "Error"))
+    if extra:
+        x.fail(f"fn open_normal: arms this translator does not know: {extra}")
+    return copy_arm("FdIn"), copy_arm("FdOut"), unsupported
+
+
+def dot_open_facts(x):
+    src = strip_comments(x.read("yash-builtin/src/source/semantics.rs"))
+    fns = functions(src)
+    if "open_file" not in fns:
+        x.fail("anchor not found: fn open_file in yash-builtin/src/source/semantics.rs")
+    body = fns["open_file"][1]
+    calls = open_calls(x, body, "source::open_file")
+    if len(calls) != 1:
+        x.fail(f"source::open_file: expected exactly one `.open(…)` call, found {len(calls)}")
+    a = classify_access(x, calls[0][0], "source::open_file")
+    c, t, ap, e, ce = classify_open_flags(x, calls[0][1], consts(src), "source::open_file")
+    if not re.search(r"\bmove_fd_internal\s*\(", body):
+        x.fail("source::open_file: the descriptor is not handed to move_fd_internal")
+    return (a, c, t, ap, e), ce
+
+
+def builtin_types(x, names):
+    src = strip_comments_keep_strings(x.read("yash-builtin/src/lib.rs"))
+    out = {}
+    for n in names:
+        m = re.search(r'\(\s*"' + re.escape(n) + r'"\s*,\s*\{?\s*(?:let\s+mut\s+\w+\s*=\s*)?Builtin::new\(\s*(?:Type::)?(\w+)\s*,',
+                      src, re.S)
+        if not m:
+            x.fail(f'anchor not found: `("{n}", … Builtin::new(<type>, …` in yash-builtin/src/lib.rs')
+        ty = m.group(1)
+        if ty not in ("Special", "Mandatory", "Elective", "Extension", "Substitutive"):
+            x.fail(f'built-in "{n}": unknown type {ty}')
+        out[n] = "." + ty[0].lower() + ty[1:]
+    return out
+
+
+def strip_comments_keep_strings(src):
+    out, i, n = [], 0, len(src)
+    while i < n:
+        if src.startswith("//", i):
+            while i < n and src[i] != "\n":
+                i += 1
+        elif src.startswith("/*", i):
+            j = src.find("*/", i + 2)
+            i = n if j < 0 else j + 2
+        elif src[i] == '"':
+            j = i + 1
+            while j < n and src[j] != '"':
+                j += 2 if src[j] == "\\" else 1
+            out.append(src[i:j + 1])
+            i = j + 1
+        else:
+            out.append(src[i])
+            i += 1
+    return "".join(out)
+
+
 # ------------------------------------------------------------------------------------------------
 
 
@@ -310,6 +465,10 @@ def redir_consts(x):
         "fileAppend": arm(r"FileAppend"),
         "fileInOut": arm(r"FileInOut"),
     }
+    nc_first, nc_second, nc_errno = noclobber_facts(x, redir, fns)
+    dup_in, dup_out, unsupported = open_normal_other_arms(x, on)
+    dot_args, dot_cloexec = dot_open_facts(x)
+    btypes = builtin_types(x, ["exec", ":", ".", "command"])
     b = lambda v: "true" if v else "false"
     lines = [
         "/-- `yash_env::io::MIN_INTERNAL_FD` -/",
@@ -339,6 +498,33 @@ def redir_consts(x):
     ]
     for k2, (acc, c, t, a, e) in arms.items():
         lines.append(f"def {k2} : OpenArgs := ⟨{acc}, {b(c)}, {b(t)}, {b(a)}, {b(e)}⟩")
+    oa = lambda v: f"⟨{v[0]}, {b(v[1])}, {b(v[2])}, {b(v[3])}, {b(v[4])}⟩"
+    lines += [
+        "",
+        "/-- `open_file_noclobber`: arguments of its first `open` (exclusive creation) -/",
+        f"def noclobberFirst : OpenArgs := {oa(nc_first)}",
+        "/-- `open_file_noclobber`: arguments of its second `open` (what exists, no creation, no truncation) -/",
+        f"def noclobberSecond : OpenArgs := {oa(nc_second)}",
+        "/-- `open_file_noclobber`: the errno of the first `open` on which the second is tried -/",
+        f"def noclobberRetryErrno : String := \"{nc_errno}\"",
+        "/-- access mode `open_normal` requires of the descriptor named by `<&` / `>&` (`copy_fd`) -/",
+        f"def dupInAcc : Acc := {dup_in}",
+        f"def dupOutAcc : Acc := {dup_out}",
+        "/-- operators `open_normal` rejects as not implemented -/",
+        "def unsupportedOps : List String := [" + ", ".join(f'"{u}"' for u in unsupported) + "]",
+        "/-- the `.` built-in's `open` (yash-builtin/src/source/semantics.rs `open_file`): arguments, O_CLOEXEC -/",
+        f"def dotOpenArgs : OpenArgs := {oa(dot_args)}",
+        f"def dotOpenCloexec : Bool := {b(dot_cloexec)}",
+        "",
+        "/-- `yash_env::builtin::Type` -/",
+        "inductive BuiltinType where | special | mandatory | elective | extension | substitutive",
+        "  deriving DecidableEq, Repr",
+        "/-- types registered in yash-builtin/src/lib.rs -/",
+        f"def typeOfExec : BuiltinType := {btypes['exec']}",
+        f"def typeOfColon : BuiltinType := {btypes[':']}",
+        f"def typeOfDot : BuiltinType := {btypes['.']}",
+        f"def typeOfCommand : BuiltinType := {btypes['command']}",
+    ]
     x.write("RedirConsts", "\n".join(lines) + "\n")
 
 
